@@ -328,7 +328,7 @@ package iso7816
 //@   requires validNfc(nfc) && nfc.readFileMaxChunks >= 0 && nfc.readFileMaxTlvLength <= 65535
 //@   ensures "exact-file": err == nil && fileData != nil ==> len(fileData) == tlvTotal(ef(nfc)) && fileData === ef(nfc)[:len(fileData)]
 //@   ensures "not-found-only-if-chip-says-so": err == nil && fileData == nil ==> chipSaidNotFound(nfc, fileId)
-//@   ensures "max-le-only-decreases": nfc.maxLe <= old(nfc.maxLe)
+//@   ensures "max-le-only-decreases": nfc.maxLe <= old(nfc.maxLe) && 0 <= nfc.maxLe
 //@   loop 1 invariant fileBuf != nil && nfc != nil && fileBuf === ef(nfc)[:len(fileBuf)] && len(fileBuf) <= len(ef(nfc))
 //@   loop 1 invariant "buffered-less-than-total": len(fileBuf) < totalBytes
 //@   loop 1 invariant "total-is-header-plus-value": totalBytes == tlvTotal(ef(nfc))
@@ -336,6 +336,8 @@ package iso7816
 //@   loop 1 invariant 0 <= chunkCnt && chunkCnt <= nfc.readFileMaxChunks && nfc.readFileMaxChunks == old(nfc.readFileMaxChunks)
 //@   loop 1 invariant 0 <= maxReadAmount && maxReadAmount <= old(nfc.maxLe) && 0 <= nfc.maxLe && nfc.maxLe <= old(nfc.maxLe) && validNfc(nfc)
 //@   loop 1 decreases nfc.readFileMaxChunks - chunkCnt
+//@   ensures "session-kept": nfc.sm == old(nfc.sm)
+//@   assigns nfc.maxLe, nfc.lastApduLogEntry, content(nfc.apduLog), content(nfc.sm), nfc.lastSW, nfc.lastProtected
 //@   safety all
 
 // ---------------------------------------------------------------- C03 / C10: secure messaging (ICAO 9303-11 §9.8)
